@@ -104,6 +104,8 @@ type Engine struct {
 	Inline func(*ssa.Function) bool
 	sum    map[*ssa.Function]Masks
 	busy   map[*ssa.Function]bool
+	stop   *ssa.BasicBlock
+	atStop Masks
 }
 
 func New(tag Tagger, inline func(*ssa.Function) bool) *Engine {
@@ -147,6 +149,22 @@ func (e *Engine) Exits(fn *ssa.Function) map[*ssa.Return]Masks {
 	return e.From(fn.Blocks[0], 0)
 }
 
+// Between analyses the paths that start at the beginning of block start and
+// end on first arrival at block stop (the events of stop itself are not
+// counted); paths that return earlier are reported under the nil key... the
+// result is the join over all arrivals at stop, and ok tells whether stop is
+// reachable at all.
+func (e *Engine) Between(start, stop *ssa.BasicBlock) (m Masks, early map[*ssa.Return]Masks, ok bool) {
+	e.stop = stop
+	e.atStop = nil
+	early = e.From(start, 0)
+	e.stop = nil
+	if e.atStop == nil {
+		return nil, early, false
+	}
+	return e.atStop, early, true
+}
+
 // From analyses the paths that start at instruction index idx of block start.
 func (e *Engine) From(start *ssa.BasicBlock, idx int) map[*ssa.Return]Masks {
 	fn := start.Parent()
@@ -175,6 +193,23 @@ func (e *Engine) From(start *ssa.BasicBlock, idx int) map[*ssa.Return]Masks {
 	// seed: the start block suffix
 	first := transfer(Masks{}, start, idx)
 	push := func(s *ssa.BasicBlock, m Masks) {
+		if e.stop != nil && s == e.stop {
+			if e.atStop == nil {
+				e.atStop = m.clone()
+			} else {
+				keys := map[string]bool{}
+				for k := range e.atStop {
+					keys[k] = true
+				}
+				for k := range m {
+					keys[k] = true
+				}
+				for k := range keys {
+					e.atStop[k] = e.atStop.Get(k) | m.Get(k)
+				}
+			}
+			return
+		}
 		if !reached[s.Index] {
 			reached[s.Index] = true
 			in[s.Index] = m.clone()
